@@ -6,6 +6,14 @@ From Coq Require Import List ZArith NArith Bool Arith.
 From TF Require Import Base Query Index DB.
 Import ListNotations.
 
+(* insert: a point stored through measurement argument / handle `m` carries that name; insert_multiple
+   stops at the first element that is not a Point *)
+Definition rename (m : option str) (p : point) : point :=
+  match truthy m with Some name => set_meas p name | None => p end.
+Fixpoint prefix_points (ps : list (option point)) : list point :=
+  match ps with Some p :: r => p :: prefix_points r | _ => [] end.
+Definition all_points (ps : list (option point)) : bool := forallb (fun o => match o with Some _ => true | None => false end) ps.
+
 Section Spec.
 Variable E : env.
 Variable C : cenv.
@@ -94,4 +102,66 @@ Definition spec_field_values k m (db : list point) : list (option num) :=
   flat_map (fun p => match dget k (p_fields p) with Some v => [v] | None => [] end) (in_meas m db).
 Definition spec_timestamps m (db : list point) : list Z := map p_time (in_meas m db).
 Definition spec_len (db : list point) : nat := length db.
+
+(* ---- the whole API as one abstract step: the database is the list, nothing else ------------- *)
+(* None = the specification does not constrain the output (index.valid is an implementation detail) *)
+Definition restrict_hop (name : str) (h : hop) : op :=
+  match h with
+  | HLen => Count (QNoop AMeas) (Some name) | HIter => Search (QNoop AMeas) (Some name) false | HAll srt => Search (QNoop AMeas) (Some name) srt
+  | HContains q => Contains q (Some name) | HCount q => Count q (Some name) | HGet q => Get q (Some name)
+  | HSearch q srt => Search q (Some name) srt | HSelect ks q => Select ks q (Some name)
+  | HGetFieldKeys => GetFieldKeys (Some name) | HGetFieldValues k => GetFieldValues k (Some name)
+  | HGetTagKeys => GetTagKeys (Some name) | HGetTagValues ks => GetTagValues ks (Some name)
+  | HGetTimestamps => GetTimestamps (Some name)
+  | HInsert ps => Insert ps (Some name) | HRemove q => Remove q (Some name) | HRemoveAll => DropMeas name
+  | HUpdate q u => Update q u (Some name) | HUpdateAll u => Update (QNoop AMeas) u (Some name)
+  end.
+Definition spec_update_step (norm : point -> point) (sel : point -> bool) (u : option updspec) (db : list point) : list point * option out :=
+  match u with
+  | None => (db, Some ORaise)
+  | Some u => if upd_given u then match spec_update_rows norm sel u db with
+                                  | Some (l, n) => (l, Some (ONat n)) | None => (db, Some ORaise) end
+              else (db, Some ORaise)
+  end.
+Definition spec_flat (norm : point -> point) (db : list point) (o : op) : list point * option out :=
+  match o with
+  | Insert ps m => (db ++ map (rename m) (prefix_points ps), Some (if all_points ps then ONat (length ps) else ORaise))
+  | Remove q m => (fst (spec_remove q m db), Some (ONat (snd (spec_remove q m db))))
+  | DropMeas name => (fst (spec_drop name db), Some (ONat (snd (spec_drop name db))))
+  | RemoveAll => ([], Some OUnit)
+  | Update q u m => spec_update_step norm (hit q m) u db
+  | UpdateAll u => spec_update_step norm (fun _ => true) u db
+  | Search q m srt => (db, Some (OPoints (spec_search q m srt db)))
+  | Count q m => (db, Some (ONat (spec_count q m db)))
+  | Contains q m => (db, Some (OBool (spec_contains q m db)))
+  | Get q m => (db, Some (OPoint (spec_get q m db)))
+  | Select None _ _ => (db, Some ORaise)
+  | Select (Some ks) q m => (db, Some (OSel (spec_select ks q m db)))
+  | All srt => (db, Some (OPoints (spec_all srt db)))
+  | Len => (db, Some (ONat (spec_len db)))
+  | Iter => (db, Some (OPoints db))
+  | GetMeasurements => (db, Some (OStrs (spec_measurements db)))
+  | GetTagKeys m => (db, Some (OStrs (spec_tag_keys m db)))
+  | GetTagValues ks m => (db, Some (OTagVals (spec_tag_values ks m db)))
+  | GetFieldKeys m => (db, Some (OStrs (spec_field_keys m db)))
+  | GetFieldValues k m => (db, Some (ONums (spec_field_values k m db)))
+  | GetTimestamps m => (db, Some (OTimes (spec_timestamps m db)))
+  | Reindex | Reopen _ => (db, Some OUnit)
+  | IndexValid | Handle _ _ => (db, None)
+  end.
+(* a Measurement handle: len / iteration / all are the stored points of that name; everything else is the
+   database operation with measurement = name *)
+Definition spec_step (norm : point -> point) (db : list point) (o : op) : list point * option out :=
+  match o with
+  | Handle name HLen => (db, Some (ONat (length (filter (fun p => str_eqb (p_meas p) name) db))))
+  | Handle name HIter => (db, Some (OPoints (filter (fun p => str_eqb (p_meas p) name) db)))
+  | Handle name (HAll srt) => (db, Some (OPoints (let l := filter (fun p => str_eqb (p_meas p) name) db in if srt then sort_points l else l)))
+  | Handle name h => spec_flat norm db (restrict_hop name h)
+  | _ => spec_flat norm db o
+  end.
+Fixpoint spec_run (norm : point -> point) (db : list point) (ops : list op) : list (option out) * list point :=
+  match ops with
+  | [] => ([], db)
+  | o :: r => let '(db', x) := spec_step norm db o in let '(xs, dbf) := spec_run norm db' r in (x :: xs, dbf)
+  end.
 End Spec.
